@@ -117,10 +117,13 @@ bool ExprComparator::VisitCall(CallExpr e) {
     if (NumericExpr num_arg = Cast<NumericExpr>(arg)) {
       if (!Equal(num_arg, Cast<NumericExpr>(other_arg)))
         return false;
-    } else if (std::strcmp(
-            Cast<StringLiteral>(arg).value(),
-            Cast<StringLiteral>(other_arg).value()) != 0)
-      return false;
+    } else if (StringLiteral str_arg = Cast<StringLiteral>(arg)) {
+      if (std::strcmp(str_arg.value(),
+                      Cast<StringLiteral>(other_arg).value()) != 0)
+        return false;
+    } else if (!Equal(arg, other_arg)) {
+      return false;  // e.g. symbolic if: compared (or rejected) by the visitor
+    }
   }
   return true;
 }
